@@ -207,6 +207,9 @@ func slug(s string) string {
 	return s
 }
 
+// AtExit, when set, runs just before Finish exits the process.
+var AtExit func()
+
 // Finish writes the evidence file and replays, prints the interface lines and exits.
 func (r *Run) Finish() {
 	r.mu.Lock()
@@ -284,6 +287,9 @@ func (r *Run) Finish() {
 		r.Prop, r.Tier, r.evals.Load(), r.states.Load(), r.transitions.Load(), distinct, r.exhaustive, nviol, nknown, time.Since(r.start).Seconds())
 	for _, c := range r.caps {
 		fmt.Println("  cap:", c)
+	}
+	if AtExit != nil {
+		AtExit()
 	}
 	if distinct < 2 && nviol == 0 {
 		fmt.Fprintln(os.Stderr, "harness: fewer than 2 distinct outcomes observed — exploration was vacuous")
